@@ -368,7 +368,7 @@ func checkC20(c *h.Check) {
 	c.Coverage["outcomes"] = outcomes.summary()
 	c.Coverage["skipped_illtyped"] = skipped
 	c.Coverage["rule"] = "every argument position of wire.Build / NewSet (41 expression forms), wire.Struct and wire.FieldsOf (12-13 first-argument spellings x 13 field-name spellings), wire.Bind (7 x 8 spellings), wire.Value (27 expression forms), wire.InterfaceValue (8), 21 injector result kinds with an error-returning provider (forces the zero-value expression), 9 injector body shapes; each with wire imported plainly, under an alias and with a dot import. Forms that Go's type checker rejects are counted as skipped. Oracle: exit 0 with output written and compiling, or failure with no panic/timeout and at least one diagnostic carrying file:line:column inside the package, and no output. Distinct = distinct rendered source."
-	if len(hc) > 0 {
+	if len(hc) > 0 && len(results) == len(hc) {
 		i := len(hc) / 2
 		c.Samples = append(c.Samples, map[string]interface{}{"case": hc[i].ID, "wire.go": hc[i].Files["wire.go"], "diagnostics": results[i].Root().Diags})
 	}
